@@ -203,6 +203,7 @@ func significantlyDifferent(a, b protoreflect.Message, depth int) bool {
 }
 
 type stackStream struct {
+	stalled     bool // the reader stops reading after the first message (a legitimate, if unhelpful, client)
 	updatesOnly bool
 	cancel      context.CancelFunc
 	mu          sync.Mutex
@@ -231,6 +232,8 @@ func stackRun(w *World) {
 	w.MarkNontrivial()
 	w.Mix(caseName)
 	w.SetMaxSteps(3000)
+	// a stalled reader must not be able to make an RPC hang: let send timeouts (if any server has them) fire
+	w.IdleAdvance, w.IdleAdvanceN = 6*time.Second, 30
 	// the stack
 	server := tr.server()
 	inner, _ := tr.entry.Wrap(server)
@@ -261,9 +264,9 @@ func stackRun(w *World) {
 		return resp, err
 	}
 	var streams []*stackStream
-	openPull := func(updatesOnly bool) *stackStream {
+	openPull := func(updatesOnly, stalled bool) *stackStream {
 		ctx, cancel := context.WithCancel(context.Background())
-		st := &stackStream{updatesOnly: updatesOnly, cancel: cancel, done: make(chan struct{})}
+		st := &stackStream{updatesOnly: updatesOnly, stalled: stalled, cancel: cancel, done: make(chan struct{})}
 		req := newMsg(tr.pull.Input())
 		setName(req, dev)
 		if f := req.ProtoReflect().Descriptor().Fields().ByName("updates_only"); f != nil {
@@ -298,11 +301,18 @@ func stackRun(w *World) {
 					st.got = append(st.got, proto.Clone(l.Get(i).Message().Interface()))
 				}
 				st.mu.Unlock()
+				if st.stalled {
+					<-ctx.Done() // stop reading, keep the stream open
+					return
+				}
 			}
 		}()
 		return st
 	}
 	nops := 1 + t.Choose(6)
+	if t.Flag(1, 4) {
+		nops = 8 + t.Choose(8) // long enough to fill every hand-off between a stalled reader and the resource
+	}
 	w.Go("client", false, func(task *Task) {
 		task.NoPark(true)
 		cur, err := doGet(nil, false)
@@ -337,7 +347,10 @@ func stackRun(w *World) {
 				if len(streams) >= 2 {
 					continue
 				}
-				st := openPull(t.Flag(1, 3))
+				st := openPull(t.Flag(1, 3), t.Flag(1, 4))
+				if st.stalled {
+					w.Fault("stall")
+				}
 				streams = append(streams, st)
 				task.Yield("after-open")
 				first := st.snapshot()
@@ -420,6 +433,9 @@ func stackRun(w *World) {
 				}
 				if significantlyDifferent(cur.ProtoReflect(), resp.ProtoReflect(), 1) {
 					for si, st := range streams {
+						if st.stalled {
+							continue // only readers that keep up are owed every update
+						}
 						news := st.snapshot()[before[si]:]
 						ok := false
 						for _, c := range news {
